@@ -573,8 +573,7 @@ def flt_desc(t, depth=0):
     return None
 
 
-def r6_constructors(chk, F, R):
-    rule = "C10.R6"
+def r6_constructors(chk, F, R, rule="C10.R6"):
     eng, D = R.eng, R.D
     half_day = oracle.DAY_NS // 2
     n = 0
